@@ -329,7 +329,7 @@ theorem constructM_eq (E : Ext) (info : PaneInfo) (conv : Nat → Val → Result
         match mapE (initVal E (Facts.initDefaultCalled == some true) conv checked bound) (initFields info) with
         | .error r => r
         | .ok trips =>
-          match runHook E info (tripVals trips) with
+          match runHook E info (tripVals trips) (tripSet trips) with
           | .ok final => .value (mkObj info final (tripSet trips))
           | .error e => .raises e := by
   unfold constructM
@@ -342,7 +342,7 @@ theorem constructM_eq (E : Ext) (info : PaneInfo) (conv : Nat → Val → Result
     | error r => rfl
     | ok trips =>
       simp only [List.nil_append]
-      cases runHook E info (tripVals trips) <;> rfl
+      cases runHook E info (tripVals trips) (tripSet trips) <;> rfl
 
 
 theorem find?_isSome_assocHas (n : String) (l : List (String × Val)) :
@@ -617,6 +617,44 @@ theorem fillDefaults_spec (E : Ext) (called : Bool) : ∀ (fields : List FieldIn
           · exact .inr ⟨g, List.mem_cons_of_mem _ hg, hgi, hgn⟩
 
 
+/-! ## The record of set fields, canonical -/
+
+/-- every bound name is the Python name of an init field -/
+theorem bound_names_init {info : PaneInfo} {args : List Val} {kwargs bound : List (String × Val)}
+    (hb : bindSig info args kwargs = .ok bound) (n : String) (hn : assocHas n bound = true) :
+    ∃ f ∈ info.fields, f.init = true ∧ f.name = n := by
+  obtain ⟨-, hkw, -, -, rfl⟩ := (bindSig_ok_iff info args kwargs bound).1 hb
+  rw [← contains_map_fst, List.map_append, List.contains_iff_mem, List.mem_append] at hn
+  rcases hn with hn | hn
+  · rw [byPos_names] at hn
+    have hn' := List.mem_of_mem_take hn
+    unfold posNames at hn'
+    obtain ⟨f, hf, rfl⟩ := List.mem_map.1 hn'
+    obtain ⟨hf1, hf2⟩ := List.mem_filter.1 hf
+    simp only [isPos, Bool.and_eq_true] at hf2
+    exact ⟨f, hf1, hf2.1, rfl⟩
+  · obtain ⟨kv, hkv, rfl⟩ := List.mem_map.1 hn
+    exact hkw kv hkv
+
+/-- the record `__init__` accumulates, put in field order, is the canonical set of the bound names -/
+theorem canonSet_tripSet {E : Ext} {called : Bool} {conv : Nat → Val → Result} {checked : Bool}
+    {info : PaneInfo} {args : List Val} {kwargs bound : List (String × Val)}
+    {trips : List (String × Val × Bool)}
+    (hb : bindSig info args kwargs = .ok bound)
+    (hm : mapE (initVal E called conv checked bound) (initFields info) = .ok trips) :
+    canonSet info (tripSet trips) = canonSet info (bound.map (·.1)) := by
+  apply canonSet_congr
+  intro n
+  rw [tripSet_eq hm, contains_map_fst, Bool.eq_iff_iff, List.contains_iff_mem, List.mem_map]
+  constructor
+  · rintro ⟨f, hf, rfl⟩
+    have := (List.mem_filter.1 hf).2
+    simp only [Bool.and_eq_true] at this
+    exact this.2
+  · intro hn
+    obtain ⟨f, hf, hi, rfl⟩ := bound_names_init hb n hn
+    exact ⟨f, List.mem_filter.2 ⟨hf, by simp [hi, hn]⟩, rfl⟩
+
 /-! ## `constructM`, characterised -/
 
 theorem constructM_value_iff (E : Ext) (info : PaneInfo) (conv : Nat → Val → Result) (checked : Bool)
@@ -624,7 +662,7 @@ theorem constructM_value_iff (E : Ext) (info : PaneInfo) (conv : Nat → Val →
     constructM E info conv checked args kwargs = .value o ↔
       ∃ bound trips final, bindSig info args kwargs = .ok bound ∧
         mapE (initVal E (Facts.initDefaultCalled == some true) conv checked bound) (initFields info) = .ok trips ∧
-        runHook E info (tripVals trips) = .ok final ∧ o = mkObj info final (tripSet trips) := by
+        runHook E info (tripVals trips) (tripSet trips) = .ok final ∧ o = mkObj info final (tripSet trips) := by
   rw [constructM_eq]
   cases hb : bindSig info args kwargs with
   | error e =>
@@ -658,7 +696,7 @@ theorem constructM_value_iff (E : Ext) (info : PaneInfo) (conv : Nat → Val →
       · rintro ⟨_, _, _, h, h', _⟩; cases h; rw [hm] at h'; cases h'
     | ok trips =>
       simp only
-      cases hh : runHook E info (tripVals trips) with
+      cases hh : runHook E info (tripVals trips) (tripSet trips) with
       | error e =>
         constructor
         · intro h; cases h
@@ -734,20 +772,20 @@ theorem tripVals_lookup {E : Ext} {called : Bool} {conv : Nat → Val → Result
 /-! ## `__post_init__` on every creation path -/
 
 theorem runHook_raises {E : Ext} {info : PaneInfo} {h : String} (hh : info.hook = some h)
-    (hr : ∀ vals, ∃ e, E.hook h vals = .error e) (vals : List (String × Val)) :
-    ∃ e, runHook E info vals = .error e := by
-  unfold runHook; rw [hh]; exact hr vals
+    (hr : ∀ vals set, ∃ e, E.hook h vals set = .error e) (vals : List (String × Val)) (set : List String) :
+    ∃ e, runHook E info vals set = .error e := by
+  unfold runHook; rw [hh]; exact hr vals _
 
 theorem makeUncheckedKw_ok_iff (E : Ext) (info : PaneInfo) (vals : List (String × Val)) (o : Val) :
     makeUncheckedKw E info vals = .ok o ↔
       ∃ all final, fillDefaults E (Facts.initDefaultCalled == some true) info.fields vals = some all ∧
-        runHook E info all = .ok final ∧ o = mkObj info final (vals.map (·.1)) := by
+        runHook E info all (vals.map (·.1)) = .ok final ∧ o = mkObj info final (vals.map (·.1)) := by
   unfold makeUncheckedKw
   cases hfd : fillDefaults E (Facts.initDefaultCalled == some true) info.fields vals with
   | none => simp
   | some all =>
     simp only
-    cases hh : runHook E info all with
+    cases hh : runHook E info all (vals.map (·.1)) with
     | ok final =>
       simp only [Except.ok.injEq, Option.some.injEq]
       constructor
@@ -764,10 +802,11 @@ theorem makeUncheckedKw_ok_iff (E : Ext) (info : PaneInfo) (vals : List (String 
 /-! ## Constructor versus `from_data` on the same keyword mapping -/
 
 /-- the hook depends on the stored attributes only through the by-name lookup (Python hooks read
-`self.<name>`; the order in which the model lists the attributes is immaterial to them) -/
+`self.<name>`; the order in which the model lists the attributes is immaterial to them); the record of
+set fields it is shown is the same on both sides -/
 def HookByName (E : Ext) : Prop :=
-  ∀ (h : String) (l l' : List (String × Val)),
-    (∀ n, l.find? (·.1 == n) = l'.find? (·.1 == n)) → E.hook h l = E.hook h l'
+  ∀ (h : String) (l l' : List (String × Val)) (s : List String),
+    (∀ n, l.find? (·.1 == n) = l'.find? (·.1 == n)) → E.hook h l s = E.hook h l' s
 
 /-- `convert(v, <type of field i>)` with the class's own field converters -/
 def convOf (E : Ext) (cs : List Conv) (i : Nat) (v : Val) : Result :=
@@ -823,10 +862,7 @@ theorem mkObj_congr (info : PaneInfo) {l l' : List (String × Val)} {set set' : 
   · apply filterMap_congr_mem
     intro f _
     rw [h1]
-  · congr 1
-    apply List.filter_congr
-    intro f _
-    exact h2 f.name
+  · exact canonSet_congr info h2
 
 section CtorEq
 variable {E : Ext} {info : PaneInfo}
@@ -1146,8 +1182,8 @@ theorem ctor_struct_same (hG : GuardsCover = true) (hE : ExtOk E) (hwf : wfList 
 /-- the hook sees the same attributes by name, so it does the same thing; the instances coincide -/
 theorem runHook_congr (hhook : HookByName E) {l l' : List (String × Val)} {set set' : List String}
     (h1 : ∀ n, l.find? (·.1 == n) = l'.find? (·.1 == n)) (h2 : ∀ n, set.contains n = set'.contains n)
-    {final : List (String × Val)} (h : runHook E info l = .ok final) :
-    ∃ final', runHook E info l' = .ok final' ∧ mkObj info final set = mkObj info final' set' := by
+    {final : List (String × Val)} (h : runHook E info l set = .ok final) :
+    ∃ final', runHook E info l' set' = .ok final' ∧ mkObj info final set = mkObj info final' set' := by
   unfold runHook at h ⊢
   cases hh : info.hook with
   | none =>
@@ -1158,7 +1194,7 @@ theorem runHook_congr (hhook : HookByName E) {l l' : List (String × Val)} {set 
   | some hk =>
     rw [hh] at h
     simp only at h ⊢
-    rw [← hhook hk l l' h1, h]
+    rw [← canonSet_congr info h2, ← hhook hk l l' _ h1, h]
     exact ⟨final, rfl, mkObj_congr info (fun _ => rfl) h2⟩
 
 /-- **Constructor = `from_data` on keyword data** (side conditions in the statement) -/
